@@ -5,6 +5,7 @@ d=/verif/seeded/$1
 prop=${2:-$(python3 -c "import json;print(json.load(open('$d/meta.json'))['property'])")}
 git -C /repo status --porcelain | grep -q . && { echo "/repo not clean"; exit 9; }
 git -C /repo apply "$d/patch.diff" || { echo "patch does not apply"; exit 9; }
-trap 'git -C /repo checkout -- . ' EXIT
+cp /verif/evidence/$prop.json /tmp/evidence_$prop.bak 2>/dev/null
+trap 'git -C /repo checkout -- . ; cp /tmp/evidence_'$prop'.bak /verif/evidence/'$prop'.json 2>/dev/null' EXIT
 cd /verif && ./check "$prop" --tier "${TIER:-quick}"
 echo "exit=$?"
